@@ -759,19 +759,15 @@ def gen_xcorr(rng, maxn, which, N=None):
     N = N or rng.choice([2, 3, 4, 5, 8, rng.randint(2, maxn)])
     if rng.random() < 0.4:
         # integer channels near the limits of their dtype (np.correlate in that dtype would wrap around)
-        dt = rng.choice(INT_DTYPES)
+        dt = rng.choice(INT_DTYPES if which == "xcorr" else INT_DTYPES[:-1])
         rows = []
         for _ in range(nch):
-            r = gen_ints(rng, N, dt, None if which == "xcorr" or dt == "bool" else rng.choice(["top", "top", "both"]))
-            while np.ptp(r.astype(float)) == 0 or (which == "xcorr_norm" and abs(float(np.sum(r.astype(float)))) == 0):
-                r = gen_ints(rng, N, dt)
+            # xcorr_norm divides by the zero-lag entries: all-positive channels keep them away from zero
+            r = gen_ints(rng, N, dt, None if which == "xcorr" else "top")
+            while np.ptp(r.astype(float)) == 0:
+                r = gen_ints(rng, N, dt, None if which == "xcorr" else "top")
             rows.append(r)
         data = np.array(rows, dtype=dt)
-        if which == "xcorr_norm":
-            f = data.astype(float)
-            z = [abs(float(np.dot(f[i], f[j]))) for i in range(nch) for j in range(i, nch)]
-            if min(z) <= 1e-3 * max(z):       # the zero-lag entries the code divides by must not vanish
-                data = np.abs(f).astype(dt) if dt != "bool" else np.ones_like(data) ^ np.eye(nch, N, dtype=bool)
         return {"k": which, "data": arr_desc(data), "dt": rng.choice([1.0, 0.5, 2.0]),
                 "v": rng.choice(["plain", "plain", "fortran", "strided", "negstride", "readonly", "plus0"])}
     data = gen_values(rng, [nch, N], "float64")
@@ -831,7 +827,7 @@ def gen_corrspec(rng, maxn, n=None):
             while np.ptp(x.astype(float)) == 0:
                 x = gen_ints(rng, n, dt, "small" if dt != "bool" else None)
             xs.append(x)
-        return {"k": "corrspec", "norm": rng.random() < 0.4, "x1": arr_desc(xs[0]), "x2": arr_desc(xs[1]),
+        return {"k": "corrspec", "norm": False, "x1": arr_desc(xs[0]), "x2": arr_desc(xs[1]),
                 "v": rng.choice(["plain", "plain", "strided", "negstride", "readonly", "plus0"])}
     x1 = gen_values(rng, [n], "float64")
     x2 = gen_values(rng, [n], "float64") + 0.5 * x1
